@@ -12,6 +12,30 @@ DONE = {
   text="Generated histories (local insert/delete with a hooked clock, remote inserts, re-offers, reopen) are checked step by step against an independent reference model of the newest-wins / prefix-deletion rule, and generated entry sets are applied in several permutations with duplicates and compared with the order-free merge. PBT is the right level: the property quantifies over all histories, and the oracle is a 40-line executable model.",
   note="Trusts ed25519 determinism (predicting locally created entries), redb, and the reference model of DESIGN.md §2.3; bounded to <= 60 steps, <= 3 authors, short keys over a 4-letter alphabet plus derived prefix/0xFF neighbours.",
   technique=PBT + ": step-wise differential against a reference model + permutation metamorphic check"),
+ "C07": dict(level="exploration",
+  text="Generated histories of capability imports (Read/Write in any order, repeated, for three documents), opens, closes, write attempts, remote inserts, secret export and store reopen run against Store/Replica and against the store actor; a three-state capability model with Write absorbing predicts every reply, the listed kinds and every document's contents after every step.",
+  note="Bounded to 3 documents and <= 60 steps; 'reopen' of an in-memory store hands the same Store to a new actor.",
+  technique=PBT + ": history vs. capability state-machine model"),
+ "C13": dict(level="exploration",
+  text="Histories (entries arriving in any timestamp order, deletions, reopen, document removal and re-creation) are checked after every step: reported heads = per-author maxima of the entries held, has_news_for_us = number of reported authors that are unknown or strictly newer. Generated head sets (authors sharing timestamps) are round-tripped without limit and, under generated limits, checked for size, subset, newest-that-fit and maximality with an independent size computation.",
+  note="Limits start at 1 byte; any key at the head timestamp is accepted as head key.",
+  technique=PBT + ": invariant over histories + round-trip / optimality oracle for the heads encoding"),
+ "C15": dict(level="exploration",
+  text="Generated policies (both kinds, exact/prefix byte filters incl. empty, non-UTF-8 and ':'), keys related to the filters, and generated well- and ill-formed filter strings are checked against an independent statement of the matching rule and of the filter grammar; set/get/reopen/missing-document behaviour and the should_download flag of remote-insert events are checked on real stores and actors.",
+  note="The grammar oracle re-reads 'kind:encoding:rest' independently with split-at-first-two-colons.",
+  technique=PBT + ": definition-as-oracle, Display/FromStr round-trip"),
+ "C16": dict(level="exploration",
+  text="Multi-document stores (ids that are byte-order neighbours, ids ending in 0xFF, all-FF / all-00 ids via unvalidated raw rows) go through generated histories of writes, settings, removal while closed / open, re-creation and reopen; after every step the full observable dump of every document is compared: only the targeted document may change, a removed one equals the empty document, and content_hashes() equals the hashes held.",
+  note="Raw-row cases exercise bound arithmetic only and are labelled as such; oracle is differential in time (dump before vs. after).",
+  technique=PBT + ": frame-condition check over full observable dumps"),
+ "C17": dict(level="exploration",
+  text="Generated registration sequences over up to 9 peers and 3 documents plus a missing one, with reads and reopen, compared after every step with a move-to-front list truncated to five.",
+  note="Assumes consecutive registrations get distinct wall-clock nanosecond stamps.",
+  technique=PBT + ": history vs. MRU list model"),
+ "C18": dict(level="exploration",
+  text="Generated multi-document file stores are closed, the derived tables (heads, by-key index, or both) are deleted with plain redb, and the store is reopened 1..=4 times: heads are compared with the per-author maxima of the records, key-ordered queries with the naive executor of C05, everything else with the pre-deletion dump, and each further reopen with the previous one.",
+  note="Older databases are emulated by table deletion; the redb 2.x tuple-format migration is left to the repository's own tests.",
+  technique=PBT + ": metamorphic (delete derived tables, reopen) + model oracle"),
  "C05": dict(level="exploration",
   text="For generated replica states, generated queries over the full product of query options are compared, as exact sequences, with a naive filter/group/sort/skip/take executor over the store's actual contents; point lookups and the two physical access paths are cross-checked.",
   note="Latest-per-key semantics as documented on Query (author filter after grouping); ties between authors at the greatest timestamp are judged by a validity predicate or skipped and counted.",
